@@ -27,7 +27,7 @@ fn adapter_events(log: &[Ev]) -> Vec<Ev> {
 
 fn prop(model: &Model, ix: &Index, tape: &[u32], st: &mut Stats) -> Result<(), String> {
     let mut t = Tape::new(tape);
-    let env = Env::new(model, 8);
+    let mut env = Env::new(model, 8);
     let mut cfg = GenCfg::default();
     cfg.max_units = 3;
     cfg.lit.max_payload = 3;
@@ -39,6 +39,17 @@ fn prop(model: &Model, ix: &Index, tape: &[u32], st: &mut Stats) -> Result<(), S
     let n_msgs = t.range(1, 8);
     let mut msgs: Vec<Message> = Vec::new();
     let mut faulty_mid: Vec<usize> = Vec::new();
+    // at most one query whose handler fails in this case (never used by the valid units)
+    let failing_decl: Option<usize> = if t.chance(1, 2) {
+        let queries: Vec<usize> = (0..model.spec.decls.len()).filter(|i| model.spec.decls[*i].is_query()).collect();
+        let id = queries[t.below(queries.len())];
+        env.fail[id] = Some(vcore::gen::FailSpec::Custom(-(t.below(300) as i16) - 1, t.below(8)));
+        cfg.avoid = vec![id];
+        Some(id)
+    }
+    else {
+        None
+    };
     for _ in 0..n_msgs {
         let mut m = gen::gen_message(&mut t, ix, &cfg);
         if t.chance(1, 4) && !m.units.is_empty() {
@@ -54,7 +65,31 @@ fn prop(model: &Model, ix: &Index, tape: &[u32], st: &mut Stats) -> Result<(), S
             if t.chance(1, 3) {
                 u.raw = Some(b"@".to_vec());
             }
-            if model.resolve(&[], &u.header).target.is_none() || u.raw.is_some() || !u.args.is_empty() {
+            // ... or a QUERY that fails: a surplus parameter, a parameter of the wrong kind, or a
+            // handler that returns an error - nothing at all may be written for it
+            let failing_query = t.chance(1, 3);
+            if failing_query {
+                let queries: Vec<usize> = (0..model.spec.decls.len())
+                    .filter(|i| model.spec.decls[*i].is_query() && Some(*i) != failing_decl)
+                    .collect();
+                // either the query whose handler fails, or a healthy query with a surplus parameter
+                let by_handler = failing_decl.is_some() && t.chance(1, 2);
+                let id = if by_handler { failing_decl.unwrap() } else { queries[t.below(queries.len())] };
+                let d = &model.spec.decls[id];
+                let (nodes, _) = vcore::spec::parse_cmd(&d.cmd);
+                u = vcore::ast::Unit::new(
+                    Header {
+                        absolute: !d.cmd.starts_with('*'),
+                        mnems: nodes.iter().map(|n| n.long()).collect(),
+                        query: true,
+                    },
+                    gen::gen_args(&mut t, &d.params, &Default::default()),
+                );
+                if !by_handler {
+                    u.args.push(vcore::ast::Lit::Dec("1".into()));
+                }
+            }
+            if failing_query || model.resolve(&[], &u.header).target.is_none() || u.raw.is_some() || !u.args.is_empty() {
                 m.units.push(u);
                 m.trailing_semicolon = false;
             }
